@@ -56,7 +56,8 @@ fn dropout_net(rng: &mut Rng) -> NetCfg {
             }
         }
         // output layer: dense
-        layers.push(LCfg::Dense { n: rng.range(1, 3), act: *rng.pick(&[Act::Linear, Act::Tanh, Act::Sigmoid]), bias: true, dropout: None });
+        // (soft-max output layers, and soft-max hidden dense layers, may carry dropout like any other)
+        layers.push(LCfg::Dense { n: rng.range(1, 3), act: *rng.pick(&[Act::Linear, Act::Tanh, Act::Sigmoid, Act::Softmax]), bias: true, dropout: None });
         let cfg = NetCfg::plain(input, layers);
         if cfg.layers.len() >= 2 && cfg.shapes().is_ok() {
             return cfg;
